@@ -194,6 +194,10 @@ def fromSerial (c : OpCodec Ω) (d : Doc) : Except Err (St Ω) :=
 
 def encMeta (m : Meta) : Json := .obj m
 
+def encMetaEntry : Option Meta → Json
+  | none => .null
+  | some m => encMeta m
+
 def encOff : Option Int → Json
   | none => .null
   | some o => .int o
@@ -206,7 +210,7 @@ def encDoc (d : Doc) : Json :=
   .obj [("version", .str "live"), ("nodes", .arr d.nodes), ("edges", .arr (d.edges.map encEdge)),
     ("metadata", match d.metadata with
       | none => .null
-      | some l => .arr (l.map fun | none => .null | some m => encMeta m)),
+      | some l => .arr (l.map encMetaEntry)),
     ("encoder", match d.encoder with | none => .null | some e => .str e)]
 
 def fld (k : String) : List (String × Json) → Option Json
